@@ -70,7 +70,10 @@ impl<'a> IntersectionParams<'a> {
     /// Check whether two almost-colinear lines are intersecting in the wrong place due to numerical
     /// inaccuracies.
     pub fn nearly_colinear_has_error(&self) -> bool {
-        self.denominator.pow(2) < self.line1.delta().dot_product(self.line2.delta()).abs()
+        // The square of the denominator doesn't fit into an `i32` for triangles and polylines at
+        // display scale (e.g. a right triangle with 220 px legs).
+        i64::from(self.denominator).pow(2)
+            < i64::from(self.line1.delta().dot_product(self.line2.delta()).abs())
     }
 
     /// Compute the intersection point.
